@@ -18,11 +18,19 @@ Tie, re-established on every run against TEAAL_REPO's working tree:
      by nesting level, with the post-hoist list: per-node statements come from an instrumented
      replica of HiFiber.__translate that calls the same translator objects in list order, nesting
      depths come from the Gallina `depths` (theorem C10_trans_nodes_faithful).
- (C) Completeness of the graph (does it hold every TRUE dependence?) cannot be read off the graph:
-     every distinct text produced under the tie-breaks is run through C06's verified closedness
-     checker and executed in coqc on identical inputs; outcomes must not depend on the tie-break
-     (a missing edge shows up as a tie-break under which a name is read before it is bound, the
-     compiler crashes, or another tensor is computed).
+ (P) Pruning: a probe subclass keeps a copy of the graph as it was before FlowGraph.__prune; the kernel
+     checks that every kept node reaches exactly the same kept nodes before and after (prune_okb,
+     theorem C10_prune_okb_sound) and that no statement node was pruned.
+ (C) Completeness of the graph (does it hold every TRUE dependence?) cannot be read off the graph.
+     (C1) per node the names its statements write/read are extracted from the emitted text; every
+     pair of statements touching a common name (one writing) that the graph ORDERS is emitted in
+     that order under every tie-break (conflicts_okb, theorem C10_conflicts_okb_sound); every such
+     pair the graph does NOT order is a candidate missing dependence and is flipped by a targeted
+     tie-break ("front|node").  (C2) every distinct text produced under the tie-breaks (targeted
+     flips first) is run through C06's verified closedness checker and executed in coqc on
+     identical inputs; outcomes must not depend on the tie-break (a missing edge shows up as a
+     tie-break under which a name is read before it is bound, the compiler crashes, or another
+     tensor / canvas activity is computed).
 """
 import collections
 import random
@@ -42,7 +50,7 @@ LEVEL = "proof"
 
 COQ_IMPORTS = ["TV.Model.Show", "TV.Model.FlowOrder"]
 
-MAX_EXECUTED_VARIANTS = 3     # networkx's order + the first two tie-breaks that change the text
+MAX_EXECUTED_VARIANTS = 4     # networkx's order, then the targeted flips, then the others
 STRATEGIES = ["random", "lifo", "loopsfirst", "loopslast", "fifo", "lazy"]
 
 
@@ -65,6 +73,15 @@ class TieBreak:
 
     def topological_sort(self, g):
         from teaal.ir.flow_nodes import LoopNode, EndLoopNode, OtherNode
+        if self.strat.startswith("front|"):
+            # networkx's own order, except that the node named after the bar and everything it
+            # depends on is emitted first: flips the node with every statement it is not ordered with
+            base = list(self._nx.topological_sort(g))
+            target = [n for n in base if repr(n) == self.strat[6:]]
+            if not target:
+                return base
+            first = self._nx.ancestors(g, target[0]) | {target[0]}
+            return [n for n in base if n in first] + [n for n in base if n not in first]
         rng = random.Random("%s-%d" % (self.strat, self.seed))
         indeg = {n: g.in_degree(n) for n in g.nodes}
         ready = [n for n in g.nodes if indeg[n] == 0]
@@ -147,9 +164,18 @@ class Recorder:
         from teaal.ir.flow_graph import FlowGraph
         self.FlowGraph = FlowGraph
         self.records = []
+        self.Probe = None
+        if hasattr(FlowGraph, "_FlowGraph__prune"):
+            # observation only: the probe instance (used for the pre-hoist list, never handed to
+            # HiFiber) keeps a copy of the graph as it was before FlowGraph.__prune
+            class Probe(FlowGraph):
+                def _FlowGraph__prune(self):
+                    self.c10_unpruned = self.graph.copy()
+                    FlowGraph._FlowGraph__prune(self)
+            self.Probe = Probe
 
     def __call__(self, program, metrics, opts):
-        pre_fg = self.FlowGraph(program, metrics, [])
+        pre_fg = (self.Probe or self.FlowGraph)(program, metrics, [])
         fg = self.FlowGraph(program, metrics, opts)
         self.records.append(record_of(program, pre_fg, fg))
         return fg
@@ -164,7 +190,19 @@ def record_of(program, pre_fg, fg):
     pre_edges = sorted((repr(a), repr(b)) for a, b in pre_fg.get_graph().edges)
     edges = sorted((repr(a), repr(b)) for a, b in g.edges)
     ranks = list(program.get_loop_order().get_ranks())
-    return {"names": names, "edges": edges, "same_graph": pre_edges == edges and sorted(names) == sorted(repr(n) for n in pre_fg.get_graph().nodes),
+    unpruned = None
+    gu = getattr(pre_fg, "c10_unpruned", None)
+    if gu is not None:
+        import networkx
+        from teaal.ir.flow_nodes import FiberNode, RankNode, TensorNode
+        try:
+            order = [repr(n) for n in networkx.topological_sort(gu)]
+        except Exception:   # noqa  (a cycle: reported through topo_okb on the node list)
+            order = [repr(n) for n in gu.nodes]
+        passthrough = [repr(n) for n in gu.nodes if isinstance(n, (FiberNode, RankNode, TensorNode)) or
+                       (isinstance(n, OtherNode) and n.get_type() == "StartLoop")]
+        unpruned = {"edges": sorted((repr(a), repr(b)) for a, b in gu.edges), "order": order, "passthrough": passthrough}
+    return {"unpruned": unpruned, "names": names, "edges": edges, "same_graph": pre_edges == edges and sorted(names) == sorted(repr(n) for n in pre_fg.get_graph().nodes),
             "pre": pre, "post": post, "ranks": ranks,
             "loops": [repr(LoopNode(r)) for r in ranks], "ends": [repr(EndLoopNode(r)) for r in ranks],
             "body": repr(OtherNode("Body"))}
@@ -185,6 +223,83 @@ def flat_stmt(stmt, depth, out):
     else:
         out.append((depth, stmt.gen(0)))
     return out
+
+
+def names_of(loop_hdr, code):
+    """(names written, names read) by the statements one node emits, from the text alone.
+    A method call standing alone as a statement counts as a read AND a write of its receiver
+    (setRankIds, addActivity, ... mutate it).  For a loop node only the `for` header counts."""
+    import ast
+    src = (loop_hdr + "\n    pass") if loop_hdr is not None else code.gen(0)
+    if not src.strip():
+        return [], []
+    try:
+        tree = ast.parse(src)
+    except SyntaxError:
+        # e.g. a `for` emitted with an empty body by a non-loop node: complete it
+        try:
+            tree = ast.parse("\n".join(l + ("\n" + " " * (len(l) - len(l.lstrip()) + 4) + "pass" if l.rstrip().endswith(":") else "") for l in src.split("\n")))
+        except SyntaxError:
+            return None
+    defs, uses = set(), set()
+    for n in ast.walk(tree):
+        if isinstance(n, ast.Name):
+            (defs if isinstance(n.ctx, (ast.Store, ast.Del)) else uses).add(n.id)
+        elif isinstance(n, ast.Expr) and isinstance(n.value, ast.Call) and isinstance(n.value.func, ast.Attribute):
+            # a call standing alone as a statement is executed for its effect on the receiver
+            t = n.value.func.value
+            while isinstance(t, (ast.Subscript, ast.Attribute, ast.Call)):
+                t = t.func if isinstance(t, ast.Call) else t.value
+            if isinstance(t, ast.Name):
+                defs.add(t.id)
+        elif isinstance(n, ast.AugAssign) and isinstance(n.target, ast.Name):
+            uses.add(n.target.id)
+        elif isinstance(n, (ast.Assign, ast.AugAssign)):
+            # writes through a subscript / attribute mutate the object: metrics["x"] = ..
+            for t in (n.targets if isinstance(n, ast.Assign) else [n.target]):
+                while isinstance(t, (ast.Subscript, ast.Attribute)):
+                    t = t.value
+                if isinstance(t, ast.Name):
+                    defs.add(t.id)
+    return sorted(defs), sorted(uses)
+
+
+def conflict_groups(per):
+    """[(earlier node, [later nodes touching a common name, one of the two writing])] in list order."""
+    import runlib as _rl
+    api = set(_rl.API_NAMES)
+    info = []
+    for name, loop_hdr, stmts, du in per:
+        if du is None:
+            return None
+        d, u = du
+        info.append((name, set(d) - api, set(u) - api))
+    groups = []
+    for i, (a, da, ua) in enumerate(info):
+        later = []
+        for b, db, ub in info[i + 1:]:
+            if (da & (db | ub)) or (ua & db):
+                later.append(b)
+        if later:
+            groups.append((a, later))
+    return groups
+
+
+def split_conflicts(rec, groups):
+    """-> (groups ordered by the graph, [(a, b)] not ordered by it).  Reachability by networkx here;
+    the ordered part is re-checked by the kernel (conflicts_okb, theorem C10_conflicts_okb_sound)."""
+    import networkx
+    g = networkx.DiGraph()
+    g.add_nodes_from(rec["names"])
+    g.add_edges_from(rec["edges"])
+    ordered, unordered = [], []
+    for a, bs in groups:
+        desc = networkx.descendants(g, a) if a in g else set()
+        ok = [b for b in bs if b in desc]
+        if ok:
+            ordered.append((a, ok))
+        unordered += [(a, b) for b in bs if b not in desc]
+    return ordered, unordered
 
 
 def parse_all(yaml, arch):
@@ -296,7 +411,7 @@ def reference_walk(yaml, arch, tb):
                     code.add(header.make_swizzle(program.get_equation().get_tensor(node.get_tensor()), node.get_ranks(), node.get_type()))
                 else:
                     raise ValueError("unknown node " + repr(node))
-                per.append((repr(node), loop_hdr, flat_stmt(code, 0, [])))
+                per.append((repr(node), loop_hdr, flat_stmt(code, 0, []), names_of(loop_hdr, code)))
             out.append(per)
             program.reset()
     return out
@@ -310,7 +425,10 @@ def intern_record(rec):
     """names -> positives; names occurring only in the lists / loop chain get fresh ids (the
     checkers then fail on coverage/brackets, as they must)."""
     ids = {}
-    for n in rec["names"] + rec["pre"] + rec["post"] + rec["loops"] + rec["ends"] + [rec["body"]] + [x for e in rec["edges"] for x in e]:
+    extra = []
+    if rec.get("unpruned"):
+        extra = rec["unpruned"]["order"] + [x for e in rec["unpruned"]["edges"] for x in e]
+    for n in rec["names"] + rec["pre"] + rec["post"] + rec["loops"] + rec["ends"] + [rec["body"]] + [x for e in rec["edges"] for x in e] + extra:
         if n not in ids:
             ids[n] = len(ids) + 1
     return ids
@@ -323,6 +441,22 @@ def coq_report_expr(rec, ids):
         clist("(%s, %s)" % (P(a), P(b)) for a, b in rec["edges"]),
         clist(P(n) for n in rec["loops"]), P(rec["body"]), clist(P(n) for n in rec["ends"]),
         clist(P(n) for n in rec["pre"]), clist(P(n) for n in rec["post"]))
+
+
+def coq_conflicts_expr(rec, ids, groups):
+    P = lambda n: cpos(ids[n])
+    return "(c10_conflicts_report %s %s %s)" % (
+        clist("(%s, %s)" % (P(a), P(b)) for a, b in rec["edges"]), clist(P(n) for n in rec["post"]),
+        clist("(%s, %s)" % (P(a), clist(P(b) for b in bs)) for a, bs in groups))
+
+
+def coq_prune_expr(rec, ids):
+    P = lambda n: cpos(ids[n])
+    u = rec["unpruned"]
+    return "(c10_prune_report %s %s %s %s %s)" % (
+        clist("(%s, %s)" % (P(a), P(b)) for a, b in u["edges"]), clist(P(n) for n in u["order"]),
+        clist(P(n) for n in u["passthrough"]),
+        clist("(%s, %s)" % (P(a), P(b)) for a, b in rec["edges"]), clist(P(n) for n in rec["pre"]))
 
 
 FLAGS = ["covers_pre", "topo_pre", "perm", "topo_post", "lifted_independent", "brackets", "balanced", "model_equal", "inversions_justified"]
@@ -388,7 +522,7 @@ def tiebreaks(ctx, k):
 
 
 def tb_name(tb):
-    return "networkx" if tb is None else "%s/%d" % tb
+    return "networkx" if tb is None else "%s/%d" % tuple(tb)
 
 
 # ----------------------------------------------------------------------------
@@ -402,7 +536,7 @@ def structure_mismatch(real_flat, walk, depth_lists):
     for per, depths in zip(walk, depth_lists):
         if len(per) != len(depths):
             return "depth list length %d != node count %d" % (len(depths), len(per))
-        for (name, loop_hdr, stmts), d in zip(per, depths):
+        for (name, loop_hdr, stmts, _), d in zip(per, depths):
             if loop_hdr is not None:
                 exp.append((d, loop_hdr, name))
             for (rd, text) in stmts:
@@ -420,9 +554,13 @@ def structure_mismatch(real_flat, walk, depth_lists):
 
 def _compile_item(job):
     """One specification under all its tie-breaks (runs in a forked worker; plain data out)."""
-    yaml, arch, tbs = job
+    yaml, arch, tbs, n_targeted, seed = job
     rows = []
-    for tb in tbs:
+    tbs = list(tbs)
+    k = 0
+    while k < len(tbs):
+        tb = tbs[k]
+        k += 1
         try:
             text, real_flat, records = compile_recorded(yaml, arch, tb)
         except Exception as e:   # noqa
@@ -433,6 +571,28 @@ def _compile_item(job):
         except Exception as e:   # noqa
             walk = "reference walk raised %s: %s" % (type(e).__name__, str(e)[:200])
         rows.append((tb, text, None, real_flat, records, walk))
+        if tb is None and n_targeted and not isinstance(walk, str) and len(walk) == len(records):
+            # every pair of statements that touch a common name and that the graph does not order
+            # is a candidate missing dependence: flip it with a targeted tie-break
+            cands = []
+            for rec, per in zip(records, walk):
+                groups = conflict_groups(per)
+                if groups is None or [n for n, _, _, _ in per] != rec["post"]:
+                    continue
+                for a, b in split_conflicts(rec, groups)[1]:
+                    kind = (a.split(",")[0], b.split(",")[0])
+                    cands.append((kind, b))
+            rng = random.Random("targeted-%d" % seed)
+            rng.shuffle(cands)
+            chosen, kinds = [], set()
+            for kind, b in cands:          # one per kind of pair first, then whatever is left
+                if kind not in kinds and b not in chosen:
+                    kinds.add(kind)
+                    chosen.append(b)
+            for kind, b in cands:
+                if b not in chosen:
+                    chosen.append(b)
+            tbs += [("front|" + b, 0) for b in chosen[:n_targeted]]
     return rows
 
 
@@ -441,7 +601,8 @@ def check_specs(ctx, items, tbs_of, tag, stats):
     (item, [(tb, text or None, error or None)])."""
     import multiprocessing
     t0 = time.time()
-    jobs = [(it["yaml"], it.get("arch", False), tbs_of(it)) for it in items]
+    n_targeted = 2 if ctx.quick() else 6
+    jobs = [(it["yaml"], it.get("arch", False), tbs_of(it), n_targeted, ctx.seed * 100003 + i) for i, it in enumerate(items)]
     nproc = max(1, min(8, vlib.NPROC // 2))
     if nproc > 1 and len(jobs) > 8:
         with multiprocessing.get_context("fork").Pool(nproc) as pool:
@@ -468,8 +629,36 @@ def check_specs(ctx, items, tbs_of, tag, stats):
             if ex not in where:
                 where[ex] = len(exprs)
                 exprs.append(ex)
-    res = vlib.coq_eval_lines(tag, COQ_IMPORTS, "", exprs, shard=60)
+    pexprs, pwhere = [], {}
+    for u, (idx, tb, text, real_flat, records, walk) in enumerate(units):
+        if tb is not None:
+            continue            # pruning precedes the sort: one tie-break is enough
+        for j, rec in enumerate(records):
+            if rec.get("unpruned"):
+                ex = coq_prune_expr(rec, intern_record(rec))
+                if ex not in pwhere:
+                    pwhere[ex] = len(exprs) + len(pexprs)
+                    pexprs.append(ex)
+    cexprs, cwhere = [], {}
+    for u, (idx, tb, text, real_flat, records, walk) in enumerate(units):
+        if isinstance(walk, str) or [[n for n, _, _, _ in per] for per in walk] != [rec["post"] for rec in records]:
+            continue
+        for j, (rec, per) in enumerate(zip(records, walk)):
+            groups = conflict_groups(per)
+            if groups is None:
+                stats["conflicts_unparsable"] += 1
+                continue
+            groups, unordered = split_conflicts(rec, groups)
+            stats["conflict_pairs_not_ordered_by_graph"] += len(unordered)
+            ex = coq_conflicts_expr(rec, intern_record(rec), groups)
+            if ex not in cwhere:
+                cwhere[ex] = len(exprs) + len(pexprs) + len(cexprs)
+                cexprs.append(ex)
+            stats["conflict_pairs_ordered_by_graph"] += sum(len(bs) for _, bs in groups)
+    res = vlib.coq_eval_lines(tag, COQ_IMPORTS, "", exprs + pexprs + cexprs, shard=60)
+    stats["conflict_checks_evaluated"] += len(cexprs)
     stats["graphs_evaluated"] += len(exprs)
+    stats["prune_checks_evaluated"] += len(pexprs)
     stats["seconds_kernel_graphs"] = round(time.time() - t0, 1)
     for u, (idx, tb, text, real_flat, records, walk) in enumerate(units):
         it = items[idx]
@@ -483,7 +672,7 @@ def check_specs(ctx, items, tbs_of, tag, stats):
             stats["edges_max"] = max(stats["edges_max"], len(rec["edges"]))
             moved = rec["pre"] != rec["post"]
             stats["graphs_where_hoist_moved_something"] += 1 if moved else 0
-            stats["by_tiebreak"][tb_name(tb).split("/")[0]] += 1
+            stats["by_tiebreak"][tb_name(tb).split("/")[0].split("|")[0]] += 1
             stats["model_equal"] += 1 if rep["model_equal"] else 0
             stats["inversions_justified"] += 1 if rep["inversions_justified"] else 0
             if any(re.match(r"\(FromFiberNode", n) for n in rec["names"]):
@@ -494,6 +683,24 @@ def check_specs(ctx, items, tbs_of, tag, stats):
 
             def nm(s):
                 return " -> ".join(inv.get(int(x), x) for x in s.split(">")) if s != "-" else "-"
+            if tb is None and rec.get("unpruned"):
+                u_ = rec["unpruned"]
+                pr = res[pwhere[coq_prune_expr(rec, ids)]]
+                kept = [n for n in u_["order"] if n not in set(u_["passthrough"])]
+                stats["prune_model_equal"] += 1 if pr[2] == "T" else 0
+                stats["passthrough_nodes_max"] = max(stats["passthrough_nodes_max"], len(u_["passthrough"]))
+                if sorted(kept) != sorted(rec["names"]):
+                    lost = sorted(set(kept) - set(rec["names"]))
+                    ctx.violation({"kind": "prune-drops-statement"}, "pruning removed or invented statement nodes: lost %s, new %s" % (
+                        lost[:4], sorted(set(rec["names"]) - set(kept))[:4]), dict(base, mode="prune"))
+                elif pr[0] != "T":
+                    ctx.violation({"kind": "graph-cyclic"}, "the flow graph before pruning has no topological order (cycle)", dict(base, mode="prune"), no_input=True)
+                elif pr[1] != "T":
+                    ctx.violation({"kind": "prune-changes-dependences"},
+                                  "FlowGraph.__prune does not preserve the dependences among the statements that stay (a path through fiber/rank/tensor nodes "
+                                  "was not replaced by an edge, or an edge was invented) [Einsum %d, %s]" % (j, it["kind"]), dict(base, mode="prune"))
+            elif tb is None:
+                stats["prune_not_observable"] += 1
             if not rec["same_graph"]:
                 ctx.violation({"kind": "graph-not-repeatable"}, "FlowGraph built twice on the same Program gives two different graphs", base, no_input=True)
                 continue
@@ -522,11 +729,33 @@ def check_specs(ctx, items, tbs_of, tag, stats):
             ctx.violation({"kind": "reference-walk-failed"}, walk, {"yaml": it["yaml"], "arch": bool(it.get("arch")), "tiebreak": list(tb) if tb else None}, no_input=True)
             continue
         stats["trees_compared"] += 1
-        walked_nodes = [[n for n, _, _ in per] for per in walk]
+        walked_nodes = [[n for n, _, _, _ in per] for per in walk]
         if walked_nodes != [rec["post"] for rec in records]:
             ctx.violation({"kind": "sorted-list-not-repeatable"}, "two constructions of FlowGraph(..., ['hoist']) on equal inputs return different lists",
                           {"yaml": it["yaml"], "arch": bool(it.get("arch")), "tiebreak": list(tb) if tb else None}, no_input=True)
             continue
+        for j, (rec, per) in enumerate(zip(records, walk)):
+            groups = conflict_groups(per)
+            if groups is None:
+                continue
+            groups = split_conflicts(rec, groups)[0]
+            ids = intern_record(rec)
+            cr = res[cwhere[coq_conflicts_expr(rec, ids, groups)]]
+            flags_, badc = cr.split(";")
+            if flags_[0] == "T" and flags_[1] != "T":
+                # networkx says ordered, the verified descb says not: the harness is wrong somewhere
+                ctx.violation({"kind": "harness-reachability-disagrees"}, "networkx and the kernel disagree on reachability: %s" % badc,
+                              {"yaml": it["yaml"]}, no_input=True)
+            if False:
+                inv = {v: k for k, v in ids.items()}
+                a, b = [inv[int(x)] for x in badc.split(">")]
+                info = {n: du for n, _, _, du in per}
+                common = sorted((set(info[a][0]) & (set(info[b][0]) | set(info[b][1]))) | (set(info[a][1]) & set(info[b][0])))
+                key = {"kind": "dependence-missing-from-graph", "earlier": a.split(",")[0].strip("("), "later": b.split(",")[0].strip("(")}
+                ctx.violation(key, "statements of %s and %s both touch %s (one of them writes) but the flow graph does not order them: "
+                              "another topological tie-break may emit them the other way round [tie-break %s, Einsum %d, %s]" % (a, b, common[:4], tb_name(tb), j, it["kind"]),
+                              {"yaml": it["yaml"], "arch": bool(it.get("arch")), "tiebreak": list(tb) if tb else None, "einsum_index": j, "mode": "conflict",
+                               "earlier": a, "later": b, "names": common})
         mm = structure_mismatch(real_flat, walk, depth_lists)
         stats["statements_compared"] += len(real_flat)
         if mm is not None:
@@ -574,9 +803,12 @@ def behaviour_checks(ctx, outcomes, tag, stats):
         stats["specs"] += 1
         stats["by_kind"][it["kind"].split(":")[0]] += 1
         texts = []
-        for tb, t in oks:
+        pref = [x for x in oks if x[0] is None] + [x for x in oks if x[0] is not None and x[0][0].startswith("front|")] + \
+               [x for x in oks if x[0] is not None and not x[0][0].startswith("front|")]
+        for tb, t in pref:
             if t not in [x for _, x in texts]:
                 texts.append((tb, t))
+        stats["targeted_flips_changing_the_text"] += sum(1 for tb, _ in texts if tb is not None and tb[0].startswith("front|"))
         texts = texts[:MAX_EXECUTED_VARIANTS]
         stats["distinct_texts"] += len(texts)
         stats["specs_with_variants"] += 1 if len(texts) > 1 else 0
@@ -640,13 +872,17 @@ def run(ctx):
         "distinct_nontrivial": stats.get("graphs_where_hoist_moved_something", 0),
         "population": stats,
         "rule": "plain, shape-partitioned, occupancy-partitioned (+flatten), affine (eager intervals), cascade and spacetime specifications, the five accelerator YAMLs, "
-                "generated architectures and compute-only cascades; every specification compiled under networkx's tie-break, one loops-first tie-break and %d more "
-                "(seeded random Kahn, LIFO, FIFO, loops-last); per Einsum and tie-break one kernel evaluation of the checkers on (graph, pre-hoist list, post-hoist list); "
-                "non-trivial = the hoist pass moved at least one statement; every distinct text per specification run through da and executed" % (k - 1),
+                "generated architectures and compute-only cascades; every specification compiled under networkx's tie-break, one 'lazy' tie-break (every statement as late as "
+                "possible, so that the hoist pass has work), %d more (seeded random Kahn, LIFO, FIFO, loops-first, loops-last) and up to %d targeted flips of statement pairs "
+                "that share a name but are not ordered by the graph; per Einsum and tie-break one kernel evaluation of the checkers on (graph, pre-hoist list, post-hoist list); "
+                "pruning checked once per Einsum; non-trivial = the hoist pass moved at least one statement; up to %d distinct texts per specification run through da and executed"
+                % (k - 1, 2 if ctx.quick() else 6, MAX_EXECUTED_VARIANTS),
         "samples": [sample] if sample else [],
         "trusted_base": ["Coq 8.16.1 kernel + VM (vm_compute)", "tools/props/c10.py: interning of repr(node), reading of loop order from Program.get_loop_order(), "
                          "the instrumented replica of HiFiber.__translate (its output is compared with the real tree on every run)",
                          "the tie-break generator (each produced order is itself checked by topo_okb)",
+                         "observation of the unpruned graph through a subclass overriding the name-mangled FlowGraph.__prune (skipped, and said so, if that name disappears)",
+                         "extraction of written/read names per node with CPython ast (used to choose targeted tie-breaks; the verdict is behavioural)",
                          "for (C): Model/Rt.v + Model/Interp.v, tools/py2coq.py, Model/Closed.v da"],
     })
     ctx.assumptions += [
@@ -673,11 +909,25 @@ def replay(ctx, rep):
         for p in py_verdict(rec):
             bad.append("Einsum %d: %s" % (j, p))
     exprs = [coq_report_expr(rec, intern_record(rec)) for rec in records]
-    reps = [parse_report(x) for x in vlib.coq_eval_lines("c10r", COQ_IMPORTS, "", exprs)]
+    pexprs = [coq_prune_expr(rec, intern_record(rec)) for rec in records if rec.get("unpruned")]
+    out = vlib.coq_eval_lines("c10r", COQ_IMPORTS, "", exprs + pexprs)
+    reps = [parse_report(x) for x in out[:len(exprs)]]
     for j, rp in enumerate(reps):
         fl = [f for f in VERDICT_FLAGS + ["covers_pre", "topo_pre"] if not rp[f]]
         if fl:
-            bad.append("Einsum %d: kernel checkers reject: %s" % (j, fl))
+            bad.append("Einsum %d: kernel checkers reject: %s (bad edge %s, bad lift %s)" % (j, fl, rp["bad_edge"], rp["bad_lift"]))
+    k = 0
+    for j, rec in enumerate(records):
+        if not rec.get("unpruned"):
+            continue
+        pr = out[len(exprs) + k]
+        k += 1
+        u_ = rec["unpruned"]
+        kept = [n for n in u_["order"] if n not in set(u_["passthrough"])]
+        if sorted(kept) != sorted(rec["names"]):
+            bad.append("Einsum %d: pruning removed or invented statement nodes" % j)
+        elif pr[0] == "T" and pr[1] != "T":
+            bad.append("Einsum %d: FlowGraph.__prune does not preserve the dependences among the statements that stay" % j)
     try:
         walk = reference_walk(r["yaml"], arch, tb)
         mm = structure_mismatch(real_flat, walk, [rp["depths"] for rp in reps])
@@ -687,7 +937,7 @@ def replay(ctx, rep):
         bad.append("reference walk raised %s" % e)
     if mode == "behaviour":
         spec = runlib.Spec(r["yaml"])
-        data = {t: {tuple(int(x) for x in k.split(",") if x != ""): v for k, v in d.items()} for t, d in r["inputs"].items()}
+        data = {t: {tuple(int(x) for x in k_.split(",") if x != ""): v for k_, v in d.items()} for t, d in r["inputs"].items()}
         with patched(None):
             t0 = spec.compile(arch=arch)
         cs = [execlib.Case(spec, t, r["extents"], data, r["scalars"], extra_ints=r.get("extra_ints")) for t in (t0, text)]
@@ -696,6 +946,8 @@ def replay(ctx, rep):
         print("networkx order:", cs[0].raw, das[0])
         print("tie-break %s:" % tb_name(tb), cs[1].raw, das[1])
         if cs[0].raw != cs[1].raw or das[0] != das[1]:
+            if ctx.match_known(dict({"kind": "tiebreak-dependent-behaviour"}, **graphics_flags(t0, text))):
+                print("(matches a known finding)")
             bad.append("behaviour depends on the tie-break")
     print(text)
     for b in bad:
